@@ -50,7 +50,7 @@ impl WaitSlot {
     /// and `park_timeout`, closing the usual check/park lost-wakeup window.
     pub(super) fn wait_while(&self, timeout: Duration, mut blocked: impl FnMut() -> bool) {
         #[cfg(feature = "verif")]
-        crate::verif::event(crate::verif::Event::WaitEnter { slot: self as *const Self as usize });
+        let _verif_wait = crate::verif::wait_guard(self as *const Self as usize);
         if !blocked() {
             return;
         }
